@@ -183,11 +183,31 @@ class Instrs(CallsMixin):
         loc = st.loc_for(et, ref)
         st.store(loc, V.zero_val(types, et))
         v = Val(t, {(): ref})
+        self.zero_ghosts(st, loc, et, 0)
         # private until its address is stored or handed to unknown code (see escape())
         st.locals.append(loc)
         self.setreg(st, ins, v)
         if ins.get('comment') and fr is self.cx.top:
             st.names.setdefault(ins['comment'], ('addr', ins['name']))
+
+    def zero_ghosts(self, st, loc, t, depth):
+        """specification-only fields declared `zero` are 0 in a freshly allocated object (and in
+        the struct-valued fields nested in it)"""
+        gz = getattr(self.prog.cs, 'ghost_zero', None)
+        if not gz or depth > 3:
+            return
+        types = self.types
+        d = types.get(t)
+        tn = d.get('name') if d['k'] == 'named' else None
+        if tn:
+            for (tname, fld) in gz:
+                if tname == tn:
+                    ref = loc.ref if not loc.steps else V.interior_handle(loc)
+                    st.store(Loc('ghost', tn + '.' + fld, ref, [], MATHINT), mathint(0))
+        if types.kind(t) == 'struct':
+            for f in types.fields(t):
+                if types.kind(f['type']) == 'struct':
+                    self.zero_ghosts(st, st.field_loc(loc, f['name'], f['type']), f['type'], depth + 1)
 
     def op_BinOp(self, st, fr, b, i, ins):
         x = self.operand(st, fr, ins['x'])
